@@ -861,6 +861,9 @@ class World(object):
                     f.set_exception(e)
                 elif kind == "fn":
                     f.set_result(self.fn(op[1] + ".fn", op[3]))
+                elif kind == "running":
+                    # the input is being worked on: cancel() will be refused, but must still be requested
+                    return f.set_running_or_notify_cancel()
                 elif kind in ("cancel", "cancel_plain"):
                     if f.done():
                         self.rec("complete_noop", fut=op[1])
